@@ -9,6 +9,7 @@ import Gk.DrvSchedCron
 import Gk.DrvLin
 import Gk.DrvPure
 import Gk.DrvEnt
+import Gk.DrvCore
 open Gk
 
 /-- `gkdriver <family>`: reads trace lines on stdin, prints `L<n> DIFF …` / `L<n> MON …` lines and a
@@ -163,6 +164,21 @@ partial def loopEnt (h : IO.FS.Stream) (s : DrvEnt.S) (n hist nt bad : Nat) : IO
     for o in outs do IO.println s!"L{n + 1} {o}"
     loopEnt h s' (n + 1) hist nt (bad + outs.length)
 
+partial def loopCore (h : IO.FS.Stream) (s : DrvCore.S) (n hist nt bad : Nat) : IO Unit := do
+  let line ← h.getLine
+  if line.isEmpty then
+    IO.println s!"SUMMARY family=corefault lines={n} histories={hist} nontrivial={nt} ops={s.count} flagged={bad}"
+    return
+  let toks := Proto.tokens line
+  match toks with
+  | [] => loopCore h s (n + 1) hist nt bad
+  | ["end"] => loopCore h {} (n + 1) (hist + 1) (nt + (if s.nontrivial then 1 else 0)) bad
+  | _ =>
+    let (req, resp) := Proto.splitArrow toks
+    let (s', outs) := DrvCore.stepLine s req resp
+    for o in outs do IO.println s!"L{n + 1} {o}"
+    loopCore h s' (n + 1) hist nt (bad + outs.length)
+
 def main (args : List String) : IO UInt32 := do
   let stdin ← IO.getStdin
   match args with
@@ -176,4 +192,5 @@ def main (args : List String) : IO UInt32 := do
   | ["pure"] => loopPure stdin {} 0 0 0 0; return 0
   | ["lin"] => loopLin stdin {} 0 0 0 0; return 0
   | ["entproto"] => loopEnt stdin {} 0 0 0 0; return 0
+  | ["corefault"] => loopCore stdin {} 0 0 0 0; return 0
   | _ => IO.eprintln "usage: gkdriver repo"; return 2
